@@ -213,6 +213,91 @@ func checkC15(r *Report, known []Finding) {
 			in.cls, in.mode, w, a, pat, got, want),
 			map[string]any{"class": in.cls, "mode": in.mode, "witness_hex": hexOf(w), "checker": a, "pattern": pat, "coregex": got, "regexp": want}, false)
 	}
+	// ---- case-folded literals over the whole fold table: every rune with a non-trivial SimpleFold orbit, compiled as (?i:r), must
+	// accept exactly the encodings of its orbit (checked on the dumped automaton by the reference matcher for each orbit member and
+	// its neighbours). Quick: every such rune that is not a letter (combining marks, Roman numerals, circled letters, …) plus a
+	// seeded sample of letters; thorough: the whole table.
+	{
+		tf := r.Tie("(?i:r) for runes of the fold table: automaton accepts exactly the SimpleFold orbit (members and neighbours, reference matcher on the dumped NFA)")
+		var foldRunes []rune
+		for c := rune(0x41); c <= 0x1E943; c++ {
+			if unicode.SimpleFold(c) != c {
+				foldRunes = append(foldRunes, c)
+			}
+		}
+		frng := NewRNG(r.Seed).Fork(0xF01D)
+		type fq struct {
+			lit  rune
+			x    rune
+			want bool
+			req  string
+		}
+		var fqs []fq
+		for _, c := range foldRunes {
+			if r.Tier != "thorough" && unicode.IsLetter(c) && frng.Intn(20) != 0 {
+				continue
+			}
+			pat := fmt.Sprintf(`(?i:\x{%x})`, c)
+			var n *nfa.NFA
+			if guard(10*time.Second, func() string {
+				var err error
+				n, err = nfa.NewCompiler(nfa.CompilerConfig{UTF8: true, MaxRecursionDepth: 100}).Compile(pat)
+				if err != nil {
+					return "ERR"
+				}
+				return ""
+			}) != "" || n == nil {
+				continue
+			}
+			d := dumpNFA(n)
+			orbit := map[rune]bool{c: true}
+			for f := unicode.SimpleFold(c); f != c; f = unicode.SimpleFold(f) {
+				orbit[f] = true
+			}
+			seen := map[rune]bool{}
+			for m := range orbit {
+				for _, x := range []rune{m - 1, m, m + 1} {
+					if x < 0 || x > 0x10FFFF || (x >= 0xD800 && x <= 0xDFFF) || seen[x] {
+						continue
+					}
+					seen[x] = true
+					fqs = append(fqs, fq{c, x, orbit[x], fmt.Sprintf("bt search 0 %s %s", hexOf(utf8.AppendRune(nil, x)), d)})
+				}
+			}
+			r.Case(fmt.Sprintf("fold\x00%x", c), true)
+		}
+		var freqs []string
+		for _, q := range fqs {
+			freqs = append(freqs, q.req)
+		}
+		fans, err := RunLean(freqs)
+		if err != nil || len(fans) != len(freqs) {
+			r.Violate(fmt.Sprintf("Lean driver failed on the fold-literal sweep: %v", err), map[string]any{"correspondence": "C15 fold literals"}, true)
+		} else {
+			for i, q := range fqs {
+				tf.Cases++
+				enc := utf8.AppendRune(nil, q.x)
+				got := fans[i] == fmt.Sprintf("0,%d", len(enc))
+				if got == q.want {
+					continue
+				}
+				tf.Disagreements++
+				pat := fmt.Sprintf(`^(?i:\x{%x})$`, q.lit)
+				e2e := "?"
+				if cx, err := coregex.Compile(pat); err == nil {
+					e2e = fmt.Sprint(cx.Match(enc))
+				}
+				attrs := map[string]string{"kind": "rune", "mode": "default", "fold": "true"}
+				if f := matchKnown(known, "C15", attrs); f != nil {
+					r.Known(f, map[string]string{"class": pat, "witness_hex": hexOf(enc)})
+					continue
+				}
+				r.Violate(fmt.Sprintf("(?i:%q) U+%04X: the compiled automaton accepts %q (U+%04X) = %v, the fold orbit says %v; end-to-end Match(%q): coregex=%s regexp=%v",
+					q.lit, q.lit, enc, q.x, got, q.want, pat, e2e, q.want),
+					map[string]any{"class": pat, "witness_hex": hexOf(enc), "pattern": pat, "coregex": e2e, "regexp": q.want}, false)
+			}
+		}
+	}
 	// ---- regenerated tie for the class compiler: the byte-range sequences along all paths of the automaton the real compiler
 	// emitted must be LITERALLY the output of the Lean transliteration of compileCharClass (Cx.Utf8Range.classSeqs); then
 	// C15_class_language / C15_dumped_class_automaton_exact hold for that automaton and every byte string. Cheap (no rune sweep),
